@@ -389,7 +389,10 @@ def gen_smc_workload(tape, spec, pil):
         wl['target_form'] = 'node'
     rounds = tape.int('rounds', 2, 4)
     if tape.chance('smc_quantiles', 1, 2) or len(pil) < 10:
-        qs = [tape.choice('q', [0.5, 0.3, 0.7, 0.2, 0.9]) for _ in range(rounds)]
+        # 1 (int) and 1.0 are legal quantiles: "no larger than the largest positively weighted
+        # discrepancy of the previous population"
+        qs = [tape.choice('q', [0.5, 0.3, 0.7, 0.2, 0.9, 1.0, 0.5, 0.3, 1])
+              for _ in range(rounds)]
         wl['objective'] = {'quantiles': qs}
     else:
         hi = tape.int('thr_hi', 5, 8)
